@@ -107,8 +107,8 @@ def is_trace_preserving(
         k_r = np.concatenate(phi_r, axis=0)
 
         mat = k_l.conj().T @ k_r
-    elif dim is None:
-        mat = partial_trace(phi, [sys - 1])
     else:
-        mat = partial_trace(phi, [sys - 1], dim)
+        # `sys` is 1-indexed and may be a single subsystem or a list of subsystems.
+        sys_0 = [idx - 1 for idx in sys] if isinstance(sys, list) else [sys - 1]
+        mat = partial_trace(phi, sys_0, dim)
     return is_identity(np.array(mat), rtol=rtol, atol=atol)
